@@ -500,6 +500,107 @@ def _filter_eval(t: ast.AST, var: str, cname: str, tag: str) -> Optional[bool]:
     return None
 
 
+def _keyerror_try_as_if(stmts: Sequence[ast.stmt]) -> List[ast.stmt]:
+    """`try: <x = G[k]> except KeyError: <fill>` (no else / finally, one handler) is read as `if k in G: <x = G[k]> else: <fill>`: the same paths for a
+    dictionary lookup.  Anything else is left alone (the caller declines on try)."""
+    out: List[ast.stmt] = []
+    for st in stmts:
+        if isinstance(st, ast.Try) and len(st.body) == 1 and len(st.handlers) == 1 and not st.orelse and not st.finalbody and pf.dotted(st.handlers[0].type or ast.Name(id='')) == 'KeyError' \
+                and st.handlers[0].name is None and isinstance(st.body[0], (ast.Assign, ast.Return)) and isinstance(st.body[0].value, ast.Subscript) \
+                and isinstance(st.body[0].value.value, (ast.Name, ast.Attribute)):
+            sub = st.body[0].value
+            test = ast.Compare(left=sub.slice, ops=[ast.In()], comparators=[sub.value])
+            new = ast.If(test=test, body=list(st.body), orelse=_keyerror_try_as_if(st.handlers[0].body))
+            out.append(ast.fix_missing_locations(ast.copy_location(new, st)))
+            continue
+        if isinstance(st, ast.If):
+            import copy
+            st = copy.copy(st)
+            st.body = _keyerror_try_as_if(st.body)
+            st.orelse = _keyerror_try_as_if(st.orelse)
+        out.append(st)
+    return out
+
+
+_KEY_PASS_CALLS = ('bool', 'int', 'str', 'float', 'repr', 'tuple', 'frozenset', 'sorted', 'list', 'json.dumps', 'dumps', 'orjson.dumps')
+_KEY_LOSSY_CALLS = ('len', 'min', 'max', 'sum', 'next', 'any', 'all', 'type', 'round', 'abs')
+
+
+def _memo_key_verdict(m: pf.Module, cls: ast.ClassDef, W: Dict[str, ast.expr], data: str, key: ast.AST, value: ast.AST) -> Tuple[str, str]:
+    """('ok' | 'bad' | 'undecided', explanation): does the memo key determine every field of the serialised dictionary that the cached value is computed from?
+    key / value are expressions over `data` (the parameter of from_dict)."""
+    covered: Set[str] = set()
+    lossy: Dict[str, str] = {}
+    whole = [False]
+    unknown: List[str] = []
+
+    def keys_in(e: ast.AST) -> Set[str]:
+        return {k for n in _walk_scoped(e, data) for k in [_data_key(n, data)] if k is not None}
+
+    def part(e: ast.AST) -> None:
+        k = _data_key(e, data)
+        if k is not None:
+            covered.add(k)
+        elif isinstance(e, ast.Name) and e.id == data:
+            whole[0] = True
+        elif isinstance(e, ast.Constant):
+            pass
+        elif isinstance(e, (ast.Tuple, ast.List)):
+            for x in e.elts:
+                part(x)
+        elif isinstance(e, ast.JoinedStr):
+            for x in e.values:
+                if isinstance(x, ast.FormattedValue):
+                    part(x.value)
+        elif isinstance(e, ast.Call) and pf.dotted(e.func) in _KEY_PASS_CALLS and len(e.args) == 1:
+            part(e.args[0])
+        elif isinstance(e, ast.Call) and isinstance(e.func, ast.Attribute) and e.func.attr == 'items' and not e.args:
+            part(e.func.value)
+        elif (isinstance(e, ast.Call) and pf.dotted(e.func) in _KEY_LOSSY_CALLS) or (isinstance(e, ast.Subscript) and keys_in(e.value)):
+            for kk in keys_in(e):
+                lossy.setdefault(kk, short(pf.nsrc(e), 50))
+        elif not keys_in(e) and not any(isinstance(n, ast.Name) and n.id == data for n in ast.walk(e)):
+            pass      # does not involve the dictionary at all
+        else:
+            unknown.append(short(pf.nsrc(e), 50))
+    part(key)
+    if unknown:
+        return 'undecided', f'key part `{unknown[0]}` is not classified (does it determine the fields it reads?)'
+    if whole[0]:
+        return 'ok', f'the key contains the whole dictionary `{data}`'
+    uses_whole = any(True for _ in _bare_uses(value, data))
+    deps = keys_in(value) | (set(W) if uses_whole else set())
+    needed = sorted(k for k in deps - covered if k in W and not _is_class_constant(m, cls, W[k]))
+    if not needed:
+        return 'ok', f'key covers {sorted(deps & covered)}; the cached value reads {sorted(deps)}'
+    # a needed field matters only if it can differ between two objects whose covered fields agree: it carries an attribute the covered fields do not
+    cov_attrs = {cf.self_attr(n) for k in covered if k in W for n in ast.walk(W[k]) if cf.self_attr(n) is not None}
+    indep = [k for k in needed if {cf.self_attr(n) for n in ast.walk(W[k]) if cf.self_attr(n) is not None} - cov_attrs]
+    if not indep:
+        return 'undecided', f'the cached value reads {needed}, which the key omits, but those fields are written from attributes the key fields also carry (dependent or not: not decided)'
+    k0 = indep[0]
+    how = f"only through `{lossy[k0]}` (many-to-one)" if k0 in lossy else 'not at all'
+    return 'bad', (f"The cached value is built from data['{k0}'] (to_dict writes `{short(pf.nsrc(W[k0]), 70)}` there), which the key covers {how}: the key fields "
+                   f"{sorted(covered)} do not determine it - two stored objects can agree on all of them and still differ in '{k0}'"
+                   + (' (the resources carry the region and the price versions in their names, which none of the scalar fields do).' if k0 == 'resources' else '.'))
+
+
+def _bare_uses(e: ast.AST, data: str):
+    """occurrences of the name `data` that are not the base of data[k] / data.get(k)"""
+    par: Dict[int, ast.AST] = {}
+    for p in ast.walk(e):
+        for c in ast.iter_child_nodes(p):
+            par[id(c)] = p
+    for n in _walk_scoped(e, data):
+        if isinstance(n, ast.Name) and n.id == data and isinstance(n.ctx, ast.Load):
+            p = par.get(id(n))
+            if isinstance(p, ast.Subscript) and p.value is n:
+                continue
+            if isinstance(p, ast.Attribute) and p.value is n and p.attr == 'get':
+                continue
+            yield n
+
+
 def _check_roundtrip(ctx: Ctx, m: pf.Module, cls: ast.ClassDef, dispatcher: Optional[str], billing_reads: Optional[Dict[str, str]] = None,
                      nested: Optional[List[Tuple[str, str]]] = None) -> None:
     """billing_reads: attribute -> an expression of the billing path that reads it (None: every attribute counts)."""
@@ -600,6 +701,7 @@ def _check_roundtrip_inner(ctx: Ctx, m: pf.Module, cls: ast.ClassDef, dispatcher
         return None
 
     body = cf.comprehend_loops(fn.body)   # `acc = {}; for x in it: acc[k] = v` is read as a comprehension
+    body = _keyerror_try_as_if(body)       # `try: v = G[k] / except KeyError: ...` is read as `if k in G: ... else: ...`
     atoms = absdom.collect_test_atoms(body)
     ctx.need(not any(isinstance(n, (ast.For, ast.While, ast.Try)) for st0 in body for n in [st0] + list(pf.walk_shallow(st0))), f'{base}.from_dict: loops/try are not a recognised shape')
     ctx.need(len(atoms) <= 5, f'{base}.from_dict: too many tests')
@@ -607,6 +709,99 @@ def _check_roundtrip_inner(ctx: Ctx, m: pf.Module, cls: ast.ClassDef, dispatcher
     n_paths = 0
     oks: List[Tuple[str, object]] = []          # problems: (role, message, line), owned by the caller
     seen_paths: Set[Tuple[int, ...]] = set()
+    # hand-written memo inside from_dict: a value kept in module- / class-level state under a key and handed to later calls.  A hit returns what an EARLIER
+    # dictionary with the same key produced, so the reloaded object is a function of the stored dictionary only if the key determines everything the cached
+    # value was computed from.  Decided once per container; afterwards every read of the container is replaced by the value the function stores there.
+    local_names = set(pf.assignments(fn))
+
+    def container_of(e: ast.AST) -> Optional[str]:
+        if isinstance(e, ast.Name) and e.id not in local_names and e.id != data:
+            try:
+                m.global_assign(e.id)
+                return e.id
+            except AnalysisError:
+                return e.id if e.id in m.imports() else None
+        if isinstance(e, ast.Attribute) and isinstance(e.value, ast.Name) and e.value.id in ('cls', C) and e.attr in _class_consts(cls):
+            return f'{C}.{e.attr}'
+        return None
+
+    def store_of(st: ast.AST) -> Optional[Tuple[str, ast.AST, ast.AST]]:
+        if isinstance(st, ast.Assign) and len(st.targets) == 1 and isinstance(st.targets[0], ast.Subscript) and container_of(st.targets[0].value) is not None:
+            return container_of(st.targets[0].value), st.targets[0].slice, st.value  # type: ignore[return-value]
+        return None
+
+    # only containers this function itself fills are memos; a module-level table that is only read (a constant lookup table) is not state
+    filled = {store_of(n)[0] for st0 in body for n in ast.walk(st0) if store_of(n) is not None}  # type: ignore[index]
+    filled |= {container_of(n.func.value) for st0 in body for n in ast.walk(st0) if isinstance(n, ast.Call) and isinstance(n.func, ast.Attribute) and n.func.attr == 'setdefault'
+               and container_of(n.func.value) is not None}
+
+    def memo_read(e: ast.AST) -> Optional[Tuple[str, ast.AST, Optional[ast.AST]]]:
+        """(container, key, value stored by the same expression) of G[k] / G.get(k[, d]) / G.setdefault(k, v)"""
+        if isinstance(e, ast.Subscript) and isinstance(e.ctx, ast.Load) and container_of(e.value) in filled:
+            return container_of(e.value), e.slice, None  # type: ignore[return-value]
+        if isinstance(e, ast.Call) and isinstance(e.func, ast.Attribute) and container_of(e.func.value) in filled and e.args and not e.keywords:
+            if e.func.attr == 'get' and len(e.args) in (1, 2):
+                return container_of(e.func.value), e.args[0], None  # type: ignore[return-value]
+            if e.func.attr == 'setdefault' and len(e.args) == 2:
+                return container_of(e.func.value), e.args[0], e.args[1]  # type: ignore[return-value]
+        return None
+    memo_stores: Dict[str, Tuple[ast.AST, ast.AST, int]] = {}     # container -> (key, value stored) over `data`, line
+    memo_active = [False]
+    subst_plain = subst_names
+
+    def subst_names(e: ast.AST, env: Dict[str, ast.AST]) -> ast.AST:  # noqa: F811
+        out = subst_plain(e, env)
+        if not memo_active[0] or not any(memo_read(n) is not None for n in ast.walk(out)):
+            return out
+
+        class M(ast.NodeTransformer):
+            def visit(self, node):
+                r = memo_read(node) if isinstance(node, (ast.Subscript, ast.Call)) else None
+                if r is None:
+                    return self.generic_visit(node)
+                G, k, own = r
+                if own is not None:
+                    return self.visit(copy.deepcopy(own))      # setdefault(k, v): v on a miss, an earlier v on a hit (key judged below)
+                if G not in memo_stores:
+                    raise AnalysisError(f'{base}.from_dict reads `{short(pf.nsrc(node), 50)}` from state that this function does not fill (not followed)')
+                k0, v0, _ = memo_stores[G]
+                if pf.nsrc(k) != pf.nsrc(k0):
+                    raise AnalysisError(f'{base}.from_dict: `{G}` is read under `{short(pf.nsrc(k), 40)}` but filled under `{short(pf.nsrc(k0), 40)}` (not a recognised memo)')
+                return copy.deepcopy(v0)
+        return M().visit(out)
+    n_state = sum(1 for st0 in body for n in ast.walk(st0) if memo_read(n) is not None or store_of(n) is not None)
+    if n_state:
+        for fv in absdom.valuations(free):
+            executed0: List[ast.stmt] = []
+
+            def val0(a: ast.AST) -> bool:
+                v = atom_value(a, env_of(executed0))
+                return v if v is not None else fv[absdom.atom_key(a)]
+            absdom.walk_block(body, val0, executed0)
+            for i, st0 in enumerate(executed0):
+                found = [store_of(st0)] if store_of(st0) is not None else []
+                found += [r for n in ast.walk(st0) for r in [memo_read(n)] if r is not None and r[2] is not None]
+                for G, k, v in found:  # type: ignore[misc]
+                    env0 = env_of(executed0[:i])
+                    kr, vr = subst_names(k, env0), subst_names(v, env0)
+                    if any(memo_read(n) is not None for n in ast.walk(vr)):
+                        raise AnalysisError(f'{base}.from_dict: the value stored in `{G}` is itself read from state (`{short(pf.nsrc(vr), 50)}`): not a recognised memo')
+                    if G in memo_stores and (pf.nsrc(memo_stores[G][0]), pf.nsrc(memo_stores[G][1])) != (pf.nsrc(kr), pf.nsrc(vr)):
+                        raise AnalysisError(f'{base}.from_dict fills `{G}` in two different ways (not a recognised memo)')
+                    memo_stores[G] = (kr, vr, st0.lineno)
+        for G, (kr, vr, line) in memo_stores.items():
+            verdict = _memo_key_verdict(m, cls, W, data, kr, vr)
+            role = f'memo {G} keyed by everything the cached value is built from'
+            if verdict[0] == 'undecided':
+                raise AnalysisError(f'{base}.from_dict: memo `{G}`: {verdict[1]}')
+            if verdict[0] == 'ok':
+                oks.append((role, verdict[1]))
+            else:
+                problems.append((role, f"from_dict keeps `{short(pf.nsrc(vr), 90)}` in `{G}` (state that outlives the call) under the key `{short(pf.nsrc(kr), 160)}` and hands the kept value to "
+                                 f"every later dictionary with the same key. {verdict[1]} So the SECOND stored {C} with that key that a process reloads gets what the FIRST one's dictionary "
+                                 f"produced: it bills the first one's resources / quantities, not the ones it was stored with (which one is wrong depends on load order; a single "
+                                 f"from_dict(to_dict(x)) in a fresh process passes). A reloaded configuration does not bill identically to the one that was stored", line))
+        memo_active[0] = True
     for fv in absdom.valuations(free):
         executed: List[ast.stmt] = []
 
@@ -1022,6 +1217,10 @@ def _sa(e: ast.AST, params: Sequence[str], subst: Dict[str, ast.AST], consts: Se
         if e.value == 0 and not isinstance(e.value, bool):
             return set()
         raise NotSA(f'additive constant {e.value!r}: k jobs are billed k x {e.value!r} but the whole worker only once')
+    cd = _ceil_division(e)
+    if cd is not None:
+        raise NotSA(f'`{short(pf.nsrc(e), 70)}` is an integer division rounded UP (ceiling of `{short(pf.nsrc(cd[0]), 30)}` / `{short(pf.nsrc(cd[1]), 30)}`): each of k small jobs is charged the '
+                    f'next whole unit, together up to k - 1 units more than the quantity they occupy')
     if isinstance(e, ast.BinOp):
         if isinstance(e.op, ast.Mult):
             if _is_const(e.left, consts) and _is_const(e.right, consts):
@@ -1265,6 +1464,110 @@ def _check_purity(ctx: Ctx, q: Quantified) -> None:
         ctx.ok('R4', f'{base}::pure', {'chain': q.ev.visited, 'memoised': q.ev.memoised, 'result': provs, 'paths': len(q.paths)})
 
 
+def _monomial(e: ast.AST) -> Optional[Tuple[int, Tuple[str, ...]]]:
+    """(integer coefficient, sorted symbols) of a product of integer literals, names and self.<attr>; None otherwise"""
+    if isinstance(e, ast.Constant) and isinstance(e.value, int) and not isinstance(e.value, bool):
+        return e.value, ()
+    if isinstance(e, ast.Name) or cf.self_attr(e) is not None:
+        return 1, (pf.nsrc(e),)
+    if isinstance(e, ast.BinOp) and isinstance(e.op, ast.Mult):
+        a, b = _monomial(e.left), _monomial(e.right)
+        if a is None or b is None:
+            return None
+        return a[0] * b[0], tuple(sorted(a[1] + b[1]))
+    if isinstance(e, ast.BinOp) and isinstance(e.op, ast.Pow) and isinstance(e.left, ast.Constant) and isinstance(e.right, ast.Constant) \
+            and isinstance(e.left.value, int) and isinstance(e.right.value, int) and 0 <= e.right.value <= 64:
+        return e.left.value ** e.right.value, ()
+    if isinstance(e, ast.BinOp) and isinstance(e.op, ast.LShift) and isinstance(e.right, ast.Constant) and isinstance(e.right.value, int) and 0 <= e.right.value <= 64:
+        a = _monomial(e.left)
+        return (a[0] << e.right.value, a[1]) if a is not None else None
+    return None
+
+
+def _ceil_division(e: ast.AST) -> Optional[Tuple[ast.AST, ast.AST]]:
+    """(a, b) if e is an integer round-UP division of a by b:  (a + b - 1) // b,  (a + (b - 1)) // b,  (b - 1 + a) // b,  (a - 1) // b + 1,  -(-a // b)."""
+    if isinstance(e, ast.UnaryOp) and isinstance(e.op, ast.USub) and isinstance(e.operand, ast.BinOp) and isinstance(e.operand.op, ast.FloorDiv):
+        l = e.operand.left
+        if isinstance(l, ast.UnaryOp) and isinstance(l.op, ast.USub):
+            return l.operand, e.operand.right
+    if isinstance(e, ast.BinOp) and isinstance(e.op, ast.FloorDiv):
+        b = _monomial(e.right)
+        # flatten the numerator into signed terms
+        terms: List[Tuple[int, ast.AST]] = []
+
+        def flat(x: ast.AST, sign: int) -> None:
+            if isinstance(x, ast.BinOp) and isinstance(x.op, ast.Add):
+                flat(x.left, sign)
+                flat(x.right, sign)
+            elif isinstance(x, ast.BinOp) and isinstance(x.op, ast.Sub):
+                flat(x.left, sign)
+                flat(x.right, -sign)
+            else:
+                terms.append((sign, x))
+        flat(e.left, 1)
+        if b is not None and len(terms) == 3:
+            ones = [t for t in terms if t[0] == -1 and isinstance(t[1], ast.Constant) and t[1].value == 1]
+            divs = [t for t in terms if t[0] == 1 and _monomial(t[1]) == b]
+            rest = [t for t in terms if t not in ones[:1] and t not in divs[:1]]
+            if len(ones) >= 1 and len(divs) >= 1 and len(rest) == 1 and rest[0][0] == 1:
+                return rest[0][1], e.right
+    if isinstance(e, ast.BinOp) and isinstance(e.op, ast.Add):
+        for x, y in ((e.left, e.right), (e.right, e.left)):
+            if isinstance(y, ast.Constant) and y.value == 1 and isinstance(x, ast.BinOp) and isinstance(x.op, ast.FloorDiv) and isinstance(x.left, ast.BinOp) \
+                    and isinstance(x.left.op, ast.Sub) and isinstance(x.left.right, ast.Constant) and x.left.right.value == 1:
+                return x.left.left, x.right
+    return None
+
+
+def _fraction_normal_form(e: ast.AST) -> Optional[Tuple[str, Tuple[int, Tuple[str, ...]], Tuple[int, Tuple[str, ...]]]]:
+    """(rounding mode, numerator monomial, denominator monomial) of a rounded quotient of products; mode in down | up | nearest | none | exact (no division)."""
+    def quot(x: ast.AST) -> Optional[Tuple[Tuple[int, Tuple[str, ...]], Tuple[int, Tuple[str, ...]]]]:
+        if isinstance(x, ast.BinOp) and isinstance(x.op, (ast.Div, ast.FloorDiv)):
+            inner = quot(x.left) if isinstance(x.left, ast.BinOp) and isinstance(x.left.op, type(x.op)) else None
+            d = _monomial(x.right)
+            if d is None:
+                return None
+            if inner is not None:     # (a // b) // c == a // (b * c) for positive integers; same for true division
+                return inner[0], (inner[1][0] * d[0], tuple(sorted(inner[1][1] + d[1])))
+            n = _monomial(x.left)
+            return (n, d) if n is not None else None
+        return None
+    cd = _ceil_division(e)
+    if cd is not None:
+        n, d = _monomial(cd[0]), _monomial(cd[1])
+        return ('up', n, d) if n is not None and d is not None else None
+    if isinstance(e, ast.BinOp) and isinstance(e.op, ast.FloorDiv):
+        q = quot(e)
+        return ('down', q[0], q[1]) if q else None
+    if isinstance(e, ast.BinOp) and isinstance(e.op, ast.Div):
+        q = quot(e)
+        return ('none', q[0], q[1]) if q else None
+    if isinstance(e, ast.Call) and not e.keywords:
+        f = pf.dotted(e.func) or ''
+        if f in ('int', 'math.floor', 'floor', 'math.trunc') and len(e.args) == 1:
+            inner = _fraction_normal_form(e.args[0])
+            return ('down', inner[1], inner[2]) if inner is not None and inner[0] in ('none', 'down', 'exact') else None
+        if f in ('math.ceil', 'ceil') and len(e.args) == 1:
+            inner = _fraction_normal_form(e.args[0])
+            return ('up', inner[1], inner[2]) if inner is not None and inner[0] in ('none', 'up', 'exact') else None
+        if f == 'round' and len(e.args) == 1:
+            inner = _fraction_normal_form(e.args[0])
+            return ('nearest', inner[1], inner[2]) if inner is not None and inner[0] in ('none', 'exact') else None
+        if f.split('.')[-1] == 'round_up_division' and len(e.args) == 2:
+            n, d = _monomial(e.args[0]), _monomial(e.args[1])
+            return ('up', n, d) if n is not None and d is not None else None
+        if f in ('max', 'min') and len(e.args) == 2:
+            # a clamped quotient: the scale is that of its non-constant operand
+            vs = [a for a in e.args if not isinstance(a, ast.Constant)]
+            if len(vs) == 1:
+                return _fraction_normal_form(vs[0])
+        return None
+    mono = _monomial(e)
+    if mono is not None:
+        return 'exact', mono, (1, ())
+    return None
+
+
 def _check_superadditive(ctx: Ctx, quants: List[Quantified]) -> None:
     for qd in quants:
         m, c, owner, mo = qd.m, qd.c, qd.owner, qd.mo
@@ -1299,36 +1602,61 @@ def _check_superadditive(ctx: Ctx, quants: List[Quantified]) -> None:
     fn = m.func('InstanceConfig.quantified_resources')
     ps = [a.arg for a in fn.args.args][1:]
     ctx.need(len(ps) == 3, f'InstanceConfig.quantified_resources: parameters {ps}')
-    wf = pf.single_def(fn, 'worker_fraction_in_1024ths')
-    ctx.need(isinstance(wf, ast.expr), 'InstanceConfig.quantified_resources: worker_fraction_in_1024ths is not singly defined')
-    cons = f'{F_IC}::InstanceConfig.quantified_resources::worker_fraction_in_1024ths'
-    try:
-        deps = _sa(wf, [ps[0]], {}, set())
-        ok = deps == {ps[0]}
-        ctx.check(ok, 'R3', cons, f'`{pf.nsrc(wf)}` does not depend on {ps[0]}', m.path, wf.lineno, detail={'expr': pf.nsrc(wf)})
-    except NotSA as e:
-        ctx.bad('R3', cons, f'`{pf.nsrc(wf)}` is not a superadditive function of {ps[0]}: {e}; per-worker resources (VM, disks, IP) billed to the jobs packed on a worker '
-                'add up to more than the worker', m.path, wf.lineno)
-    # exact shape: 1024 * cpu // (self.cores * 1000)  (whole worker == 1024)
-    wfn = wf
-    if isinstance(wf, ast.Call) and pf.dotted(wf.func) in ('int', 'math.floor') and len(wf.args) == 1 and isinstance(wf.args[0], ast.BinOp) and isinstance(wf.args[0].op, ast.Div):
-        wfn = ast.BinOp(left=wf.args[0].left, op=ast.FloorDiv(), right=wf.args[0].right)
-    shape_ok = (isinstance(wfn, ast.BinOp) and isinstance(wfn.op, ast.FloorDiv) and pf.nsrc(wfn.right) in ('self.cores * 1000', '1000 * self.cores')
-                and pf.nsrc(wfn.left) in (f'1024 * {ps[0]}', f'{ps[0]} * 1024'))
-    ctx.check(shape_ok, 'R3', cons + '::scale', f'`{pf.nsrc(wf)}` is not 1024 * {ps[0]} // (self.cores * 1000): the fraction of a whole worker (cpu = cores*1000) '
-              'is not 1024/1024ths, so static per-worker resources are over- or under-billed', m.path, wf.lineno)
     calls = [c for c in pf.calls_in(fn) if isinstance(c.func, ast.Attribute) and c.func.attr == 'to_quantified_resource']
     ctx.need(len(calls) == 1, 'InstanceConfig.quantified_resources: to_quantified_resource call not found')
     c = calls[0]
-    want = {'cpu_in_mcpu': ps[0], 'memory_in_bytes': ps[1], 'worker_fraction_in_1024ths': 'worker_fraction_in_1024ths', EXT_PARAM: ps[2]}
-    got: Dict[str, str] = {}
+    # what is passed for each parameter of to_quantified_resource, with the locals of quantified_resources expanded (a renamed / extra local is not a change)
+    passed: Dict[str, ast.expr] = {}
     for i, a in enumerate(c.args):
-        got[(list(PACK_PARAMS) + [EXT_PARAM])[i]] = pf.nsrc(a)
+        ctx.need(not isinstance(a, ast.Starred) and i < 4, 'quantified_resources: * in call')
+        passed[(list(PACK_PARAMS) + [EXT_PARAM])[i]] = a
     for k in c.keywords:
         ctx.need(k.arg is not None, 'quantified_resources: ** in call')
-        got[k.arg] = pf.nsrc(k.value)  # type: ignore[index]
-    ctx.check(got == want, 'R3', f'{F_IC}::InstanceConfig.quantified_resources::arguments of to_quantified_resource',
-              f'parameters are passed as {got}, expected {want}: a quantity is computed from the wrong request dimension', m.path, c.lineno)
+        passed[k.arg] = k.value  # type: ignore[index]
+    ldefs = cf.local_defs(fn)
+    for nm in {n.id for a in passed.values() for n in ast.walk(a) if isinstance(n, ast.Name)}:
+        ctx.need(nm in ps or nm == 'self' or ldefs.get(nm) is not None or nm not in ldefs,
+                 f'InstanceConfig.quantified_resources: `{nm}`, passed to to_quantified_resource, is not singly defined')
+    got = {k: pf.nsrc(cf.expand(fn, v)) for k, v in passed.items()}
+    want = {'cpu_in_mcpu': ps[0], 'memory_in_bytes': ps[1], EXT_PARAM: ps[2]}
+    ctx.need('worker_fraction_in_1024ths' in passed, 'InstanceConfig.quantified_resources: no worker_fraction_in_1024ths argument')
+    wrong = {k: got.get(k) for k in want if got.get(k) != want[k]}
+    ctx.check(not wrong, 'R3', f'{F_IC}::InstanceConfig.quantified_resources::arguments of to_quantified_resource',
+              f'parameters are passed as {got}, expected {want} and the worker fraction: a quantity is computed from the wrong request dimension', m.path, c.lineno)
+    # the worker fraction as ONE expression over (cpu_in_mcpu, self.<attr>): locals expanded, pure helpers (module functions, methods) seen through
+    wf0 = cf.expand(fn, passed['worker_fraction_in_1024ths'])
+    wf, helpers = cf.inline_pure(wf0, m, 'InstanceConfig', _CLASSES)
+    wline = getattr(passed['worker_fraction_in_1024ths'], 'lineno', c.lineno)
+    d0 = ldefs.get(passed['worker_fraction_in_1024ths'].id) if isinstance(passed['worker_fraction_in_1024ths'], ast.Name) else None
+    if d0 is not None:
+        wline = d0.lineno
+    via = f' (through {", ".join(dict.fromkeys(helpers))})' if helpers else ''
+    cons = f'{F_IC}::InstanceConfig.quantified_resources::worker_fraction_in_1024ths'
+    sa_ok = False
+    try:
+        deps = _sa(wf, [ps[0]], {}, set())
+        sa_ok = deps == {ps[0]}
+        ctx.check(sa_ok, 'R3', cons, f'`{pf.nsrc(wf)}`{via} does not depend on {ps[0]}', m.path, wline, detail={'expr': pf.nsrc(wf), 'helpers': helpers})
+    except NotSA as e:
+        nf0 = _fraction_normal_form(wf)
+        guard = [a for a in pf.walk_shallow(fn) if isinstance(a, ast.Assert) and 'is_power_two' in pf.nsrc(a.test) and 'cores' in pf.nsrc(a.test)]
+        tail = ''
+        if nf0 is not None and nf0[0] in ('up', 'nearest'):
+            tail = (' The quotient is not exact whenever cores*1000 does not divide 1024*cpu - e.g. a worker whose core count does not divide 1024 evenly (48 / 72 / 96 cores: 250 mCPU '
+                    'is 2.67/1024 of a 96-core worker and is billed 3/1024; the 384 such jobs that fill it are billed 1152/1024 of its disks and IP fee). '
+                    + ('The assertion that shared workers have a power-of-two core count is still there, but the function accepts any cpu_in_mcpu.' if guard else
+                       'No assertion restricts shared workers to a power-of-two core count (any more), so such workers reach this line.')
+                    + ' Rounding DOWN is the only direction that keeps every packing within the worker')
+        ctx.bad('R3', cons, f'the worker fraction is `{short(pf.nsrc(wf), 120)}`{via}, which is not a superadditive function of {ps[0]}: {e}. Per-worker resources (VM, disks, IP) billed to '
+                f'the jobs packed on a worker add up to more than the worker.{tail}', m.path, wline)
+    # exact scale: (1024 * cpu) / (self.cores * 1000) up to rounding, so that the whole worker (cpu = cores*1000) is 1024/1024ths
+    nf = _fraction_normal_form(wf)
+    ctx.need(nf is not None or not sa_ok, f'InstanceConfig.quantified_resources: worker fraction `{short(pf.nsrc(wf), 80)}` is not a (rounded) quotient of products (scale not decided)')
+    if nf is not None:
+        mode, num, den = nf
+        ratio_ok = num[1] == (ps[0],) and den[1] == ('self.cores',) and num[0] * 1000 == den[0] * 1024
+        ctx.check(ratio_ok, 'R3', cons + '::scale', f'`{short(pf.nsrc(wf), 100)}`{via} is not 1024 * {ps[0]} / (self.cores * 1000) (rounded {mode}): the fraction of a whole worker '
+                  f'(cpu = cores*1000) is not 1024/1024ths, so static per-worker resources are over- or under-billed', m.path, wline, detail={'mode': mode, 'helpers': helpers})
     # every resource of the config is billed exactly once: loop over self.resources, append when not None
     loops = [n for n in pf.walk_shallow(fn) if isinstance(n, ast.For)]
     ctx.need(len(loops) == 1 and pf.nsrc(loops[0].iter) == 'self.resources', 'InstanceConfig.quantified_resources: loop over self.resources not found')
